@@ -24,7 +24,7 @@ namespace Unifex.Proto.ThreadPool
 open Unifex.Core
 
 inductive Op
-  | enq (i : Nat) | waitAll | dtor
+  | enq (i : Nat) | waitAll | waitRan (i : Nat) | dtor
   deriving DecidableEq, Repr
 
 structure Config where
@@ -150,6 +150,7 @@ def clientStep (cfg : Config) (s : St) (t : Nat) : Option (Lbl × St) :=
     | .enq i, 5 => some (tau t, setThr (pushBody s th.start i) t { th with pc := 6 })
     | .enq i, _ => some (ev t s!"enq{i}.end", fin s)
     | .waitAll, _ => if othersDone cfg s t then some (tau t, fin s) else none
+    | .waitRan i, _ => if s.ran.contains i then some (tau t, fin s) else none
     | .dtor, 0 => some (ev t "dtor.begin", setThr s t { th with pc := 1, k := 0 })
     | .dtor, 1 =>
       let q := getQ s th.k
@@ -244,7 +245,11 @@ def cfgPool2b : Config := ⟨2, 1, [[.enq 0, .enq 1, .dtor], [], []], true⟩
 /-- two pool threads, a producer T3 with one item, T0 one item, join, destroy -/
 def cfgPool2c : Config := ⟨2, 1, [[.enq 0, .waitAll, .dtor], [], [], [.enq 1]], true⟩
 
+/-- the client waits for each item's completion before it goes on (a lost wake-up is a deadlock) -/
+def cfgPool1Wait : Config := ⟨1, 1, [[.enq 0, .waitRan 0, .enq 1, .waitRan 1, .dtor], []], true⟩
+def cfgPool2Wait : Config := ⟨2, 1, [[.enq 0, .waitRan 0, .enq 1, .waitRan 1, .dtor], [], []], true⟩
+
 def configs : List (String × Config) :=
-  [("pool_1", cfgPool1), ("pool_2a", cfgPool2a), ("pool_2b", cfgPool2b), ("pool_2c", cfgPool2c)]
+  [("pool_1_wait", cfgPool1Wait), ("pool_2_wait", cfgPool2Wait), ("pool_1", cfgPool1), ("pool_2a", cfgPool2a), ("pool_2b", cfgPool2b), ("pool_2c", cfgPool2c)]
 
 end Unifex.Proto.ThreadPool
